@@ -2,6 +2,7 @@
 
 GCS_TRUST = [
     "modelled, not verified: net/http, encoding/json, mime/multipart, gzip, MD5, google/btree, the filesystem, time.Now (assumed strictly increasing between successive writes)",
+    "the name check in front of the handlers (GCS/Wire.v: a new object name that is not valid UTF-8 is refused) is applied by every checker to the program before the handler model runs; unicode/utf8.ValidString is modelled by Common/Utf8.v (RFC 3629 ranges) and validated by the correspondence on the generated invalid names only; names carried in JSON bodies are assumed to reach the handler as valid UTF-8 (encoding/json replaces invalid bytes by U+FFFD)",
 ]
 
 BT_TRUST = [
